@@ -329,14 +329,16 @@ fn domain_router(
                 .get(#pavex::http::header::HOST)
                 .map(|h| #pavex::http::uri::Authority::try_from(h.as_bytes()).ok())
                 .flatten()
-                .map(|a| a.host()
+                .map(|a| {
+                    let host = a.host();
                     // Normalize the host by removing the trailing dot, if it exists.
-                    .trim_end_matches('.')
-                    // Replace dots with slashes, since that's the separator that `matchit` understands.
-                    .replace('.', "/")
-                    // Reverse the string to maximise shared prefixes in the underlying `matchit` router.
-                    .chars().rev().collect()
-                );
+                    // Just the one: `example.com..` is not another spelling of `example.com`.
+                    host.strip_suffix('.').unwrap_or(host)
+                        // Replace dots with slashes, since that's the separator that `matchit` understands.
+                        .replace('.', "/")
+                        // Reverse the string to maximise shared prefixes in the underlying `matchit` router.
+                        .chars().rev().collect()
+                });
 
             if let Some(host) = host {
                 if let Ok(m) = self.domain_router.at(host.as_str()) {
